@@ -243,6 +243,12 @@ class AstToDjangoQVisitor(visitor.NodeVisitor):
         django_cls = self.visit(node.comparator)
         rhs = self.visit(node.right)
 
+        # A `Q` object (the result of and/or/not) is a filter, not a value
+        # that Django can compare to something else:
+        for operand in (lhs, rhs):
+            if isinstance(operand, Q):
+                raise ex.TypeException(node.comparator.__class__.__name__, str(operand))
+
         # Django wraps a lookup on the left-hand side in parentheses, but not
         # one on the right-hand side. (In)equality is symmetric, so swap them:
         if (
